@@ -58,6 +58,10 @@ type Case struct {
 	Workers    []Worker `json:"workers"`
 	FinalClose bool     `json:"final_close"` // end with the root's Close (else two sequential passes)
 	SlowUS     int      `json:"slow_us"`     // reporter calls spin this long (widens every pass)
+	// Sanitize: the root has a sanitizer (alphanumerics and '_' in tag keys/values) and the Tagged
+	// cyclers spell their identity alternately "s-N" and "s.N" (both sanitize to "s_N"): the
+	// re-acquire of the closed scope then goes through the registry's sanitized-key path
+	Sanitize bool `json:"sanitize,omitempty"`
 }
 
 // Profile weights the generator towards one property's subject.
@@ -79,6 +83,7 @@ func Gen(t *rapid.T, p Profile) Case {
 		Seed:       rapid.Uint64().Draw(t, "seed"),
 		NRoot:      rapid.IntRange(1, 3).Draw(t, "nroot"),
 		SlowUS:     rapid.SampledFrom([]int{0, 0, 0, 2, 10}).Draw(t, "slow"),
+		Sanitize:   rapid.IntRange(0, 2).Draw(t, "sanitize") == 0,
 	}
 	c.FinalClose = c.IntervalUS > 0 || rapid.Bool().Draw(t, "finalclose")
 	total := p.Inc + p.Cycle + p.Gauge
@@ -167,6 +172,15 @@ func Run(c Case) (pbt.Outcome, error) {
 		}
 	}
 	opts := tally.ScopeOptions{OmitCardinalityMetrics: true}
+	if c.Sanitize {
+		alnum := []tally.SanitizeRange{{'a', 'z'}, {'A', 'Z'}, {'0', '9'}}
+		opts.SanitizeOptions = &tally.SanitizeOptions{
+			NameCharacters:       tally.ValidCharacters{Ranges: alnum, Characters: []rune{'_', '.'}},
+			KeyCharacters:        tally.ValidCharacters{Ranges: alnum, Characters: []rune{'_'}},
+			ValueCharacters:      tally.ValidCharacters{Ranges: alnum, Characters: []rune{'_'}},
+			ReplacementCharacter: '_',
+		}
+	}
 	if c.Cached {
 		opts.CachedReporter = &rec.Cached{L: log}
 	} else {
@@ -254,11 +268,17 @@ func Run(c Case) (pbt.Outcome, error) {
 				cname, hname, kname := name+".c", name+".h", name+".k.c"
 				if w.Tagged {
 					cname, hname, kname = "c|id="+name, "h|id="+name, "k.c|id="+name
+					if c.Sanitize {
+						san := fmt.Sprintf("s_%d", w.Target)
+						cname, hname, kname = "c|id="+san, "h|id="+san, "k.c|id="+san
+					}
 				}
 				ca, ha, ka := tot(cname), tot(hname), tot(kname)
 				for k := 0; k < w.Cycles; k++ {
 					var sub tally.Scope
-					if w.Tagged {
+					if w.Tagged && c.Sanitize {
+						sub = root.Tagged(map[string]string{"id": fmt.Sprintf("s%c%d", "-."[k%2], w.Target)})
+					} else if w.Tagged {
 						sub = root.Tagged(map[string]string{"id": name})
 					} else {
 						sub = root.SubScope(name)
@@ -436,4 +456,4 @@ func tagSuffix(tags map[string]string) string {
 }
 
 // Rule is the text shared by the three checks' evidence.
-const Rule = "free-running mode (real parallelism, no cooperative scheduler): a generated program of 2..8 goroutines - incrementers of root counters/histograms (deltas incl. 0, negatives, int64 extremes), obtain/record/Close cyclers each on its own subscope identity (SubScope or Tagged, optional child scope, double Close), sole updaters of gauges (hostile float64 bit patterns), extra report-pass callers - runs against the library's REAL report loop (ticker interval 10..300us, or none), optionally with seeded Gosched perturbation at the verif hooks and a slow reporter, and ends with the root's Close (or two sequential passes). Oracle (exact, because every increment precedes the Close of its scope in program order): per metric delivered total == sum of increments; no zero delivery; no negative delta when all increments are non-negative; nothing delivered after Close returned / by a second sequential pass; every delivered gauge value was passed to Update, deliveries <= updates, last delivered == last update; no panic. Non-trivial: at least one report pass (Flush) completed while the workers were running. The program is replayable, the schedule is not (a failure is confirmed by re-running the program up to Retries times)."
+const Rule = "free-running mode (real parallelism, no cooperative scheduler): a generated program of 2..8 goroutines - incrementers of root counters/histograms (deltas incl. 0, negatives, int64 extremes), obtain/record/Close cyclers each on its own subscope identity (SubScope or Tagged, optional child scope, double Close; optionally under a sanitizer with the identity spelled alternately in two ways that sanitize to one), sole updaters of gauges (hostile float64 bit patterns), extra report-pass callers - runs against the library's REAL report loop (ticker interval 10..300us, or none), optionally with seeded Gosched perturbation at the verif hooks and a slow reporter, and ends with the root's Close (or two sequential passes). Oracle (exact, because every increment precedes the Close of its scope in program order): per metric delivered total == sum of increments; no zero delivery; no negative delta when all increments are non-negative; nothing delivered after Close returned / by a second sequential pass; every delivered gauge value was passed to Update, deliveries <= updates, last delivered == last update; no panic. Non-trivial: at least one report pass (Flush) completed while the workers were running. The program is replayable, the schedule is not (a failure is confirmed by re-running the program up to Retries times)."
